@@ -179,13 +179,18 @@ fn client_thread(ci: usize, s: ClientScript, addr: String, go: Arc<Barrier>) -> 
             rep.mid = true;
         }
         _ => {
+            // enough replies to fill every socket buffer between server and client (several
+            // MB on loopback), so that the handler is parked inside a write when shutdown fires
+            let n = (s.count as usize) * 6;
             let mut all = Vec::new();
-            for _ in 0..s.count {
+            for _ in 0..n {
                 all.extend_from_slice(&command(&[b"GET", &key2]));
                 rep.sent.push(Cmd::Get(key2.clone()));
             }
             let _ = cl.send(&all);
             rep.mid = true;
+            // read late
+            std::thread::sleep(Duration::from_micros(500 + s.read_gap_us as u64 * 4));
         }
     }
     // read to the end of the stream (slowly if asked to)
@@ -413,7 +418,7 @@ pub fn prop() -> Prop<ShutCase> {
     Prop {
         id: "C16",
         level: "exploration",
-        rule: "Cases: 1-6 clients against an in-process server, each scripted into a state at the moment shutdown fires: idle after 0-2 acknowledged SETs; part of a frame sent (generated fraction); one complete SET with a value up to 300 KiB (1 MiB thorough) sent and the reply not yet read; 2-11 pipelined SETs; pipelined GETs of a large value read slowly; or already finished (acknowledged round trips and a clean close before the window). The shutdown signal fires a generated 0-8 ms after the clients start those sends. Every client then reads to the end of its stream and closes. Oracles: Server::run returns within 10 s after the last client closed; the server ends every stream within 12 s; each client's bytes parse with a strict reader into complete, correct replies in order followed by end of stream (a partial reply before a clean EOF is a torn reply; after a connection reset trailing bytes are not judged); after run returned, for each client the store equals the state after its first j complete commands for some j >= the number of replies it received. Non-trivial: shutdown fired while at least one client was mid-frame or mid-command; distinct = distinct hash of the case.",
+        rule: "Cases: 1-6 clients against an in-process server, each scripted into a state at the moment shutdown fires: idle after 0-2 acknowledged SETs; part of a frame sent (generated fraction); one complete SET with a value up to 300 KiB (1 MiB thorough) sent and the reply not yet read; 2-11 pipelined SETs; 12-66 pipelined GETs of a large value (up to 20 MB of replies, more than the socket buffers hold) read late and slowly; or already finished (acknowledged round trips and a clean close before the window). The shutdown signal fires a generated 0-8 ms after the clients start those sends. Every client then reads to the end of its stream and closes. Oracles: Server::run returns within 10 s after the last client closed; the server ends every stream within 12 s; each client's bytes parse with a strict reader into complete, correct replies in order followed by end of stream (a partial reply before a clean EOF is a torn reply; after a connection reset trailing bytes are not judged); after run returned, for each client the store equals the state after its first j complete commands for some j >= the number of replies it received. Non-trivial: shutdown fired while at least one client was mid-frame or mid-command; distinct = distinct hash of the case.",
         assumptions: &[
             "a client that never reads and never closes is not generated: run() is required to return once connections have wound down",
             "end of stream is accepted as EOF or connection reset (a server closing a socket with unread pipelined requests sends RST, which may purge data the client had not read yet)",
